@@ -51,15 +51,38 @@ func isJoin(k string) bool   { return strings.HasPrefix(k, "join") }
 // context and nothing afterwards; a skipped or ignored block is rendered
 // nowhere.
 type ref struct {
-	sb    strings.Builder
+	sb    *strings.Builder
+	work  int // notation bytes written to any writer, captured/discarded ones included
 	once  map[int]bool
 	oncec map[int]bool
 }
 
 func expected(forest []T) string {
-	r := &ref{once: map[int]bool{}, oncec: map[int]bool{}}
+	s, _ := expectedWork(forest)
+	return s
+}
+
+func expectedWork(forest []T) (string, int) {
+	r := &ref{sb: &strings.Builder{}, once: map[int]bool{}, oncec: map[int]bool{}}
 	r.forest(forest)
-	return r.sb.String()
+	return r.sb.String(), r.work
+}
+
+func (r *ref) w(s string) {
+	r.work += len(s)
+	r.sb.WriteString(s)
+}
+
+// capture evaluates the block of t exactly once into a buffer of its own (a
+// callee that renders its children into its own writer) and returns what the
+// block rendered there.
+func (r *ref) capture(t T) string {
+	save := r.sb
+	r.sb = &strings.Builder{}
+	r.blk(t)
+	s := r.sb.String()
+	r.sb = save
+	return s
 }
 
 func (r *ref) forest(ts []T) {
@@ -72,13 +95,13 @@ func (r *ref) blk(t T) {
 	if !hasBlock(t.K) {
 		return
 	}
-	r.sb.WriteString("b#" + t.M + "[")
+	r.w("b#" + t.M + "[")
 	r.forest(t.Kids)
-	r.sb.WriteString("]")
+	r.w("]")
 }
 
 func (r *ref) node(t T) {
-	w := r.sb.WriteString
+	w := r.w
 	switch t.K[:len(t.K)-1] {
 	case "slot":
 		w("slot#" + t.M + "[")
@@ -111,7 +134,7 @@ func (r *ref) node(t T) {
 	case "oncec":
 		if !r.oncec[t.H%2] {
 			r.oncec[t.H%2] = true
-			fmt.Fprintf(&r.sb, "slot#oc%d[]", t.H%2)
+			w(fmt.Sprintf("slot#oc%d[]", t.H%2))
 		}
 	case "flush":
 		r.blk(t)
@@ -127,6 +150,36 @@ func (r *ref) node(t T) {
 		w("fwith#" + t.M + "[slot#" + t.M + ".i[")
 		r.blk(t)
 		w("]]")
+	// callees that render their children into a writer of their own: the block
+	// is evaluated once, there, and shows up only where the callee puts what
+	// it captured (inside its marker: once, twice, or not at all).
+	case "fncap":
+		c := r.capture(t)
+		w("cap#" + t.M + "[" + c + "]")
+	case "fncap2":
+		c := r.capture(t)
+		w("cap2#" + t.M + "[" + c + c + "]")
+	case "fndrop":
+		r.capture(t)
+		w("drop#" + t.M + "[]")
+	case "capslot": // hand-written: captures a generated slot callee that is given the children
+		save := r.sb
+		r.sb = &strings.Builder{}
+		w("slot#" + t.M + ".i[")
+		r.blk(t)
+		w("]")
+		c := r.sb.String()
+		r.sb = save
+		w("capslot#" + t.M + "[" + c + "]")
+	case "capchain": // generated: @fncap(m) { @slot(m.i) { children... } }
+		save := r.sb
+		r.sb = &strings.Builder{}
+		w("slot#" + t.M + ".i[")
+		r.blk(t)
+		w("]")
+		c := r.sb.String()
+		r.sb = save
+		w("cap#" + t.M + "[" + c + "]")
 	default:
 		w("BADKIND#" + t.K + "[]")
 	}
@@ -300,6 +353,7 @@ func reductions(ts []T) [][]T {
 var representative = map[string]string{
 	"twice-": "slot-", "pass-": "slot-", "after-": "slot-", "legacy-": "slot-", "fnget-": "slot-", "once-": "slot-",
 	"flush-": "slot-", "inner-": "slot-", "ign-": "slot-", "fnign-": "slot-", "oncec-": "slot-", "join-": "slot-",
+	"fncap-": "slot-", "fncap2-": "slot-", "fndrop-": "slot-", "capslot-": "slot-", "capchain-": "slot-",
 	"twice+": "slot+", "pass+": "slot+", "after+": "slot+", "inner+": "ign+",
 }
 
@@ -421,8 +475,8 @@ func nontrivial(ts []T) bool {
 		}
 	}
 	walk(ts)
-	unconsumed := map[string]bool{"ign+": true, "inner+": true, "once+": true, "oncec+": true, "flush+": true, "join+": true, "fnign+": true, "fnget+": true}
-	slotBearing := map[string]bool{"slot-": true, "twice-": true, "pass-": true, "after-": true, "legacy-": true, "once-": true, "flush-": true, "fnget-": true}
+	unconsumed := map[string]bool{"ign+": true, "inner+": true, "once+": true, "oncec+": true, "flush+": true, "join+": true, "fnign+": true, "fnget+": true, "fncap+": true, "fncap2+": true, "fndrop+": true, "capslot+": true, "capchain+": true}
+	slotBearing := map[string]bool{"slot-": true, "twice-": true, "pass-": true, "after-": true, "legacy-": true, "once-": true, "flush-": true, "fnget-": true, "fncap-": true, "fncap2-": true, "capslot-": true, "capchain-": true}
 	seen := false
 	for _, t := range flat {
 		if seen && slotBearing[t.K] {
@@ -480,8 +534,8 @@ func enumerate(n int, kinds []string) [][]T {
 // randomForest draws a tree emphasising an unconsumed block followed by a
 // slot-bearing sibling or descendant.
 func randomForest(r *rand.Rand, budget *int, depth int) []T {
-	leaky := []string{"once+", "once+", "flush+", "fnign+", "ign+", "inner+", "oncec+", "join+", "fnget+"}
-	slotty := []string{"slot-", "slot-", "twice-", "pass-", "after-", "legacy-", "once-", "flush-", "fnget-"}
+	leaky := []string{"once+", "once+", "flush+", "fnign+", "ign+", "inner+", "oncec+", "join+", "fnget+", "fncap+", "fncap2+", "fndrop+", "capslot+", "capchain+"}
+	slotty := []string{"slot-", "slot-", "twice-", "pass-", "after-", "legacy-", "once-", "flush-", "fnget-", "fncap-", "capchain-"}
 	var out []T
 	n := 1 + r.Intn(4)
 	for i := 0; i < n && *budget > 0; i++ {
@@ -519,12 +573,16 @@ type job struct {
 	Tree  []T `json:"tree"`
 }
 
-// outputLimit: the driver aborts a render (write error) once it has produced
-// this many bytes - 8 times the size of the structure notation of the correct
-// output plus slack, i.e. well above the correct output (a marker element is
-// at most ~4 times as long as its notation) - so that a block that ends up
-// rendering itself is cut short instead of overflowing the stack.
-func outputLimit(f []T) int { return 8*len(expected(f)) + 1024 }
+// outputLimit: the driver aborts a render (write error) once it has written
+// this many bytes to the output and to capture buffers together - 8 times the
+// structure notation the correct render writes to all of them (a marker
+// element is at most ~4 times as long as its notation) plus slack - so that
+// a block that ends up rendering itself is cut short instead of overflowing
+// the stack.
+func outputLimit(f []T) int {
+	_, work := expectedWork(f)
+	return 8*work + 1024
+}
 
 type result struct {
 	ID  int    `json:"id"`
@@ -828,11 +886,11 @@ func dbg(f string, a ...any) {
 // ---------------------------------------------------------------- check
 
 // reducedKinds is the kind set used for the largest exhaustive size.
-var reducedKinds = []string{"slot-", "slot+", "ign+", "twice-", "twice+", "pass-", "after+", "inner+", "once-", "once+", "oncec+", "flush-", "flush+", "fnign+", "fnget-", "fnget+", "join+", "fnwith+"}
+var reducedKinds = []string{"slot-", "slot+", "ign+", "twice-", "twice+", "pass-", "after+", "inner+", "once-", "once+", "oncec+", "flush-", "flush+", "fnign+", "fnget-", "fnget+", "join+", "fnwith+", "fncap+", "capchain+"}
 
 // Run is the C13 check.
 func Run(c *core.Ctx) {
-	c.Rule = "cases = call trees (forests of calls; kinds: generated callees slot/ign/twice/pass/inner/after and legacy call syntax, hand-written OnceHandle.Once, Once(WithComponent), templ.Flush, templ.Join, function components reading/ignoring children, WithChildren from code; each with and without a block) rendered by one compiled interpreter whose dispatcher is expanded inline for 3 levels; oracle = reference call-tree semantics, exact marker structure on the HTML5 token stream; exhaustive part: every forest with <=N nodes over all kinds (N=3) and over a reduced kind set (N=4, thorough); non-trivial = tree with a block given to a wrapper/ignoring callee followed in preorder by a block-less call to a slot-rendering callee; distinct by canonical tree text"
+	c.Rule = "cases = call trees (forests of calls; kinds: generated callees slot/ign/twice/pass/inner/after and legacy call syntax, hand-written OnceHandle.Once, Once(WithComponent), templ.Flush, templ.Join, function components reading/ignoring children, function components capturing their children into a buffer of their own (written once, twice, discarded; hand-written and generated capture layers around a slot callee), WithChildren from code; each with and without a block) rendered by one compiled interpreter whose dispatcher is expanded inline for 3 levels; oracle = reference call-tree semantics, exact marker structure on the HTML5 token stream; exhaustive part: every forest with <=N nodes over all kinds (N=3) and over a reduced kind set (N=4, thorough); non-trivial = tree with a block given to a wrapper/ignoring callee followed in preorder by a block-less call to a slot-rendering callee; distinct by canonical tree text"
 	c.Assume("hand-written function components follow the documented protocol (GetChildren, then ClearChildren before rendering anything else)")
 	c.Assume("golang.org/x/net/html tokenizer")
 	e := build(c)
